@@ -96,6 +96,8 @@ def must_reject(d, v):
     if k in ("str", "fstr", "stringn"):
         if not isinstance(v, str):
             return "wrong python type"
+        if k == "fstr":
+            v = v[:d[1]]     # FixedSizeString.encode truncates to the tag's capacity first (fix eb9da66)
         codec = {"latin1": "latin-1", "utf16": "utf-16-le"}[d[2]] if k == "str" else (
             "latin-1" if k == "fstr" else {1: "utf-8", 2: "utf-16-le", 4: "utf-32-le"}.get(d[1]))
         if codec is None:
